@@ -268,7 +268,7 @@ CLAIMED = {
         '(3) Every @routes.<verb>(path) handler and every registration in run() is classified by a data-driven policy derived from the property text (exempt / batch-scoped / owner-only / new-batch / billing-administration / other); exactly one class each, protection of the class present with only transparent decorators above it, closed-world checks on the table object, the authenticator and the wrapper composition.',
         note=COMMON_NOTE + 'Assumed: what _fetch_userdata answers (auth service) is an oracle returning None or a UserData mapping; aiohttp dispatch, functools.wraps and the middlewares are transparent; strings are integer codes compared for equality (collations not modelled); reads of one request see one database state; handler/helper composition is by call name. '
         'Not decided: listing endpoints\' dynamically built queries, job-level ids inside batch-scoped handlers, the driver\'s routes, TrustedSingleTenantAuthenticator. '
-        'OPEN on the unchanged tree (reported, not suppressed): _create_batch_update\'s token lookup has no owner conjunct, so POST .../update-fast with an empty bunch lets a non-owner who replays an update token commit the owner\'s update (replayed on the real code), and POST .../updates/create answers such a caller with the update\'s ids; GET /metrics is registered outside the table without authentication.',
+        'One fix: commit (update-token lookup of _create_batch_update had no owner conjunct: a non-owner replaying a token could commit the owner\'s update; replayed on the real handler) and one known finding (GET /metrics is served without authentication, registered outside the route table).',
         technique='contracts on the real wrappers/handlers (pyvc symbolic execution, handler and helpers as oracles with call-site obligations), embedded SQL -> sqlvc predicates decided by z3, exhaustive AST obligations over the route table; native replays with stub requests and sqlite',
         engine='pyvc+sqlvc',
         design_ref='7/C14',
